@@ -153,13 +153,18 @@ def tnpToSdr (T P : V3 α) : α × α × α :=
   let (n1, n2) := tpToFp T P
   fpToSdr n1 n2
 
-/-- `SDR_SDR`: the other nodal plane.  Of the two candidate planes the one whose strike is
-    within one radian of the input strike is discarded. -/
+/-- `|n₁ · n₂|` of the unit normals of the planes `(s₁, d₁)` and `(s₂, d₂)` -/
+def normalDot (s₁ d₁ s₂ d₂ : α) : α :=
+  Flt.abs (Flt.sin d₁ * Flt.sin d₂ * Flt.cos (s₁ - s₂) + Flt.cos d₁ * Flt.cos d₂)
+
+/-- `SDR_SDR`: the other nodal plane.  Of the two candidate planes the one whose normal is
+    (anti)parallel to the normal of the input plane is the input plane itself and is discarded;
+    the auxiliary plane's normal is perpendicular to it. -/
 def sdrToSdr (s d r : α) : α × α × α :=
   let (n1, n2) := sdrToFp s d r
   let p1 := fpToSdr n1 n2
   let p2 := fpToSdr n2 n1
-  if Flt.ltb (Flt.abs (s - p2.1)) (c 1) then p1 else p2
+  if Flt.ltb (normalDot p1.1 p1.2.1 s d) (normalDot p2.1 p2.2.1 s d) then p1 else p2
 
 /-- `Σ eᵢ vᵢ vᵢᵀ` -/
 def rebuild (T N P : V3 α) (e : V3 α) : Sym3 α :=
